@@ -19,7 +19,7 @@ numbered in order of first occurrence in the snapshot.
 Every root the "user" can still hold is kept: constructed values, results of copying operations, and every node an
 operation removed from a tree (appended in the order the model defines: application order).
 """
-import contextlib, copy
+import contextlib, copy, os
 
 ERR_WRITE, ERR_KEY, ERR_INDEX, ERR_TYPE, ERR_VALUE, ERR_ASSERT, ERR_ATTR, ERR_OTHER, ERR_HANG, ERR_NA = 1, 2, 3, 4, 5, 6, 7, 9, 97, 99
 
@@ -307,7 +307,7 @@ def err_code(e):
 class Hang(Exception):
   """The operation did not return (e.g. a walk up a cyclic parent chain)."""
 
-WATCHDOG_S = 3.0
+WATCHDOG_S = 20.0     # CPU seconds; generous: a full garbage collection of a large harness heap can fall inside an operation
 @contextlib.contextmanager
 def watchdog(seconds):
   import signal, threading
@@ -667,13 +667,20 @@ def quirk_flags():
   copy_drops_missing = any(sig == 'C07/not-equal/copy/list-holds-MISSING' for sig, _, _ in orc.hits)
   return [int(copy_drops_missing)]
 
-def run_property(ctx, prop, oracle_cls, extra=None, focus=None, quick=700, thorough=40000):
+def run_property(ctx, prop, oracle_cls, extra=None, focus=None, quick=700, thorough=30000):
   from harness.lib import tr as trlib
   from harness.props import symcore_gen as G
   import time
   ctx.build()
   t0 = time.time()
   rng = ctx.rng
+  # a private copy of the extracted runner: another check of the same model may rebuild the shared binary while this one runs
+  if ctx.model_ok:
+    import shutil
+    from harness.lib import coqrun
+    shared = coqrun.build_runner(ctx.meta.get('runner_name', ctx.prop), ctx.meta['model_run'])
+    ctx.runner = os.path.join(ctx.workdir, 'runner')
+    shutil.copy2(shared, ctx.runner)
   quirks = quirk_flags()
   ctx.extra['quirk_flags'] = dict(copy_drops_missing=quirks[0])
   cases, kinds = [], []
@@ -689,7 +696,10 @@ def run_property(ctx, prop, oracle_cls, extra=None, focus=None, quick=700, thoro
       cases.append(g.case(rng.choice([4, 8, 10, 12]))); kinds.append(kind)
   impl_outs = []
   stats = {}
-  for case, kind in zip(cases, kinds):
+  import gc
+  for ncase, (case, kind) in enumerate(zip(cases, kinds)):
+    if ncase % 2000 == 1999:
+      gc.freeze()        # the outcomes kept so far need not be traversed by later collections
     orc = oracle_cls()
     try:
       out = run_case(case, after_step=orc)
@@ -716,6 +726,7 @@ def run_property(ctx, prop, oracle_cls, extra=None, focus=None, quick=700, thoro
     ctx.count(trlib.to_line(case), nontrivial=nontrivial, kind=kind.split(':')[0],
               sample=dict(kind=kind, case=trlib.to_line(case)[:700]) if (nontrivial and kind == 'random' and len(ctx.samples) < 4) or len(ctx.samples) < 1 else None)
   ctx.log('implementation ran %d cases in %.1fs' % (len(cases), time.time() - t0))
+  gc.unfreeze()
   model_outs = ctx.model_run(cases)
   diffs = {}
   for c, a, b in zip(cases, impl_outs, model_outs):
@@ -725,6 +736,9 @@ def run_property(ctx, prop, oracle_cls, extra=None, focus=None, quick=700, thoro
                     cases, impl_outs, model_outs, describe=lambda c: diffs.get(id(c)))
   ctx.extra['oracle_stats'] = stats
   ctx.extra['corpus_cases'] = len(CORPUS)
+  del impl_outs, model_outs
+  if ctx.thorough:
+    small_scope_sweep(ctx, oracle_cls, quirks)
   if extra:
     extra(ctx)
   # violation search when something is broken and the oracle has not hit yet: more histories biased to the op kinds that disagree
@@ -745,6 +759,43 @@ def run_property(ctx, prop, oracle_cls, extra=None, focus=None, quick=700, thoro
         ctx.hit(sig, what, dict(case=trlib.to_line(case), step=step, snippet=py_snippet(case)))
       if ctx.hits:
         break
+
+def small_scope_sweep(ctx, oracle_cls, quirks, batch=20000):
+  """Thorough tier: every operation kind x every position of every small tree x a fixed menu of arguments x 5 scopes
+  (symcore_gen.small_scope_cases), one step per case, in batches: implementation, oracle, model, comparison."""
+  from harness.lib import tr as trlib
+  from harness.props import symcore_gen as G
+  import time
+  t0 = time.time()
+  total, bad_total = 0, 0
+  gen = G.small_scope_cases(quirks)
+  while True:
+    cases = []
+    for c in gen:
+      cases.append(c)
+      if len(cases) >= batch: break
+    if not cases:
+      break
+    outs = []
+    for case in cases:
+      orc = oracle_cls()
+      try:
+        out = run_case(case, after_step=orc)
+      except Exception as e:      # pylint: disable=broad-except
+        out = None
+        ctx.broken.append(dict(kind='driver-crash', name=type(e).__name__, detail=repr(e)[:300] + ' on ' + trlib.to_line(case)[:600]))
+      outs.append(out)
+      for sig, what, step in orc.hits:
+        ctx.hit(sig, what, dict(case=trlib.to_line(case), step=step, snippet=py_snippet(case)))
+      ctx.evaluations += 1
+    model_outs = ctx.model_run(cases, vm_sample=0)
+    diffs = {id(c): describe_diff(c, a, b) for c, a, b in zip(cases, outs, model_outs) if a != b}
+    bad = ctx.compare('SymCore.run vs implementation on the exhaustive small-scope sweep', cases, outs, model_outs, describe=lambda c: diffs.get(id(c)))
+    total += len(cases); bad_total += len(bad)
+  ctx.extra['small_scope_sweep'] = dict(exhaustive=True, cases=total, disagreements=bad_total,
+                                        what='every op kind x every node of 104 small trees x a fixed menu of arguments (leaf, MISSING, plain / sealed literal, '
+                                             'references to another root, its child, the own root, a sibling) x 5 scope stacks; one step per case')
+  ctx.log('small-scope sweep: %d cases, %d disagreements, %.1fs' % (total, bad_total, time.time() - t0))
 
 def replay_property(ctx, rp, oracle_cls):
   from harness.lib import tr as trlib
